@@ -93,6 +93,7 @@ impl Property for C13 {
         v.push(("boundaries>=2".into(), m * 5));
         v.push(("preprocess-batch".into(), tier.pick(10, 100)));
         v.push(("t=n".into(), m));
+        v.push(("large-state".into(), 6));
         v
     }
     fn check(&self, suite: SuiteId, case: &Case, ctx: &mut Ctx) -> CheckResult {
@@ -254,6 +255,12 @@ fn check<C: Suite>(case: &Case, ctx: &mut Ctx) -> CheckResult {
     ctx.label(&format!("protocol:{}", PROTOCOLS[proto]));
     if shape.t == shape.n {
         ctx.label("t=n");
+    }
+    // ---- large local state (one case in twelve): with a big threshold the secret packages are several kilobytes.
+    // They must be storable and come back identical through both encodings (the full protocol with such a group
+    // would cost minutes; equality of the restored state stands in for "every subsequent step gives the same outputs").
+    if case.seed % 12 == 5 {
+        large_state::<C>(case, ctx)?;
     }
     let nb = [4usize, 4, 3, 3, 5][proto];
     let mut base: Option<Outputs> = None;
@@ -552,4 +559,39 @@ fn run_repair<C: Suite>(case: &Case, shape: Shape, on: &dyn Fn(usize) -> bool, j
     let kp_new = cycle(kp_new, on(4), json, "repaired key package")?;
     sign_tail::<C>(&mut out, kp_new, pk, &keys.kps, target, t, &case.msg.bytes(), case.seed ^ 0x1a, on(4), json)?;
     Ok(out)
+}
+
+
+fn large_state<C: Suite>(case: &Case, ctx: &mut Ctx) -> CheckResult {
+    let t = [64u16, 70, 127, 200][(case.seed >> 8) as usize % 4];
+    let t = if C::SID.slow() { t.min(70) } else { t };
+    let me = make_ids::<C>(case.ids, 1)[0];
+    ctx.eval(&format!("large-state,{t}"), true);
+    ctx.label("large-state");
+    fn same<T: Persist + PartialEq>(ctx: &mut Ctx, what: &str, v: &T, t: u16) -> CheckResult {
+        for json in [false, true] {
+            let enc = if json { "JSON" } else { "postcard" };
+            let b = match v.enc(json) {
+                Ok(b) => b,
+                Err(e) => return ctx.fail("C13/state-does-not-encode", format!("{what} of a group with threshold {t} cannot be stored ({enc}): {e}")),
+            };
+            match T::dec(&b, json) {
+                Ok(v2) => {
+                    ensure!(ctx, v2 == *v && v2.enc(false).ok() == v.enc(false).ok(), "C13/restored-state-differs", "{what} (threshold {t}) comes back different from storage ({enc}, {} bytes)", b.len());
+                }
+                Err(e) => return ctx.fail("C13/saved-state-does-not-decode", format!("{what} of a group with threshold {t} does not decode from its own {enc} encoding ({} bytes): {e}", b.len())),
+            }
+        }
+        Ok(())
+    }
+    let (sec, pkg) = frost::keys::dkg::part1::<C, _>(me, t, t, Tape::random(case.seed ^ 0x1a46)).map_err(|e| inconclusive(format!("part1 t={t}: {e:?}")))?;
+    same(ctx, "the round-one secret package of key generation", &sec, t)?;
+    same(ctx, "the round-one package of key generation", &pkg, t)?;
+    let (sec, pkg) = frost::keys::refresh::refresh_dkg_part1::<C, _>(me, t, t, Tape::random(case.seed ^ 0x1a47)).map_err(|e| inconclusive(format!("refresh part1 t={t}: {e:?}")))?;
+    same(ctx, "the round-one secret package of the distributed refresh", &sec, t)?;
+    same(ctx, "the round-one package of the distributed refresh", &pkg, t)?;
+    let (shares, _) = frost::keys::generate_with_dealer::<C, _>(t + 1, t, frost::keys::IdentifierList::Default, &mut Tape::random(case.seed ^ 0x1a48)).map_err(|e| inconclusive(format!("dealer t={t}: {e:?}")))?;
+    let sh = shares.values().next().unwrap();
+    same(ctx, "a dealer's secret share", sh, t)?;
+    Ok(())
 }
